@@ -40,6 +40,15 @@ CLAIMED = {
             "(nonlinear integer VCs); counterexamples are replayed on a real ZNCCAlignment with synthetic data.",
             NOTE + "Candidate generation order and the argmax loop are not yet under contract (assumed: rotation-major, "
             "template-minor; label of BaseAlignmentModel.align is a maximiser's flat index)."),
+    "C07": ("DESIGN.md section 2 / C07",
+            "Deductive for WHICH arrays are correlated and with which formula: ncc(a, b) == sum(a*b)/sqrt(sum(a*a) sum(b*b)), "
+            "zncc is the same on the mean-centred images (Pearson); ZNCCAlignment / NCCAlignment.score correlate the inverse "
+            "transforms of lowpass(img * mask) and of the model's cached pre-transformed template (mask -> low-pass -> wedge "
+            "order, cutoff of the model), for every box shape.",
+            NOTE + "Sums over voxels are uninterpreted values with their summand as ghost state: the range [-1, 1], the value 1 "
+            "for identical inputs, the invariance under a*x+b and the agreement of score / landscape centre / zero-range "
+            "alignment score need sum and convolution algebra that is not built and are NOT claimed; tilt models other than "
+            "no-wedge, PCC and FSC scores are not under contract."),
     "C08": ("DESIGN.md section 2 / C08",
             "Deductive, all box shapes / orientations / tilt ranges: the three copies of the FFT-ordered index grid "
             "equal fftindex per axis; the single-axis masks (tilt models, backend helper, utility) keep bin k iff "
@@ -145,6 +154,16 @@ CLAIMED = {
             "list) is trusted as observed with the installed dask; BaseTemplateMatcher.get_params_and_depth and the ZNCC "
             "landscape offset are not under contract."),
 }
+NA_REASONS = {
+    "C04": "Contract-based deductive verification cannot decide this property: 'the reported shift equals the true displacement "
+           "to a tenth (half) of a pixel' is a statement about the numerical accuracy of FFT cross-correlation, cubic-spline "
+           "up-sampling of the landscape and matrix-DFT refinement on floating-point data, for which no function-level "
+           "contract over reals gives an error bound (the argmax of an interpolated landscape has no closed-form relation to "
+           "the planted displacement). The parts of the alignment chain that ARE contract-decidable are claimed elsewhere: "
+           "C05 (indices in range, |shift| <= max_shifts, sign/decoding of the integer peak), C06 (candidate decode), C01 "
+           "(how the returned shift/rotation is applied), C07 (which arrays are correlated). A bounded numerical test would "
+           "be a different technique and is not offered as a claim.",
+}
 NOT_YET = "check not built yet in this session (work in progress; see DESIGN.md section 7 for the order)"
 
 def main():
@@ -162,7 +181,7 @@ def main():
             "level_note": note,
             "technique": tech,
         })
-    na = [{"property_id": p, "reason": NOT_YET} for p in ALL if p not in CLAIMED]
+    na = [{"property_id": p, "reason": NA_REASONS.get(p, NOT_YET)} for p in ALL if p not in CLAIMED]
     m = {
         "version": 1,
         "setup_cmd": "./setup.sh",
